@@ -9,6 +9,7 @@ import (
 	"sort"
 	"sync"
 	"testing"
+	"time"
 
 	"github.com/EliCDavis/polyform/modeling"
 	"github.com/EliCDavis/polyform/modeling/marching"
@@ -391,7 +392,75 @@ func runMarch(c MarchCase, o *vh.Obs) *vh.Failure {
 	return nil
 }
 
+// ---------------------------------------------------------------- many blocks / whole blocks (thorough tier)
+
+// BlocksCase: kind "long-capsule" = a thin capsule along x placed on a y/z block edge, so that it touches
+// 4*(L/100+1) storage blocks (more than 5*NumCPU under the 3-CPU mask); kind "whole-block" = a small
+// sphere followed by a box whose domain covers the storage block [0,100)^3 completely.
+type BlocksCase struct {
+	Kind string
+	L    int // capsule length in cells
+}
+
+func runBlocks(c BlocksCase, o *vh.Obs) *vh.Failure {
+	var fields []marching.Field
+	switch c.Kind {
+	case "long-capsule":
+		fields = []marching.Field{marching.Line(vector3.New(5., 100, 100), vector3.New(5+float64(c.L), 100.3, 99.8), 3, 1)}
+	case "whole-block":
+		fields = []marching.Field{marching.Sphere(vector3.New(30., 40, 50), 6, 1), marching.Box(vector3.New(50., 50, 50), vector3.New(99., 99, 99), 1)}
+	default:
+		return nil
+	}
+	o.NonTrivial()
+	o.Class("blocks/" + c.Kind)
+	o.Class(fmt.Sprintf("numcpu/%d", runtime.NumCPU()))
+	seq := marching.NewMarchingCanvas(1)
+	for _, f := range fields {
+		seq.AddField(f)
+	}
+	ref := triKeys(seq.March(-0.5))
+	if len(ref) == 0 {
+		return vh.Failf("blocks/empty-reference", "sequential marching produced no triangle")
+	}
+	variants := map[string]func() modeling.Mesh{
+		"AddField+MarchParallel": func() modeling.Mesh { return seq.MarchParallel(-0.5) },
+		"AddFieldParallel+March": func() modeling.Mesh {
+			cv := marching.NewMarchingCanvas(1)
+			for _, f := range fields {
+				cv.AddFieldParallel(f)
+			}
+			return cv.March(-0.5)
+		},
+		"AddFieldParallel2+March": func() modeling.Mesh {
+			cv := marching.NewMarchingCanvas(1)
+			for _, f := range fields {
+				cv.AddFieldParallel2(f)
+			}
+			return cv.March(-0.5)
+		},
+	}
+	for _, name := range []string{"AddField+MarchParallel", "AddFieldParallel+March", "AddFieldParallel2+March"} {
+		var got modeling.Mesh
+		if kind, val := oracle.Try(func() { got = variants[name]() }); kind != "" {
+			return vh.Failf("blocks/"+name+"/panic-"+kind, "%s panicked: %v", name, val)
+		}
+		if d := diffKeys(ref, triKeys(got)); d != "" {
+			return vh.Failf("blocks/"+name+"/differs", "%s (%s): %s (NumCPU %d)", name, c.Kind, d, runtime.NumCPU())
+		}
+		if r := vh.RaceReport(); r != "" {
+			return vh.RaceFailure(r)
+		}
+	}
+	return nil
+}
+
 func TestC10(t *testing.T) {
 	vh.Drive(t, vh.Spec[ScanCase]{Name: "scan-modify", Quick: 4000, Thorough: 120000, Gen: genScan, Run: runScan})
 	vh.Drive(t, vh.Spec[MarchCase]{Name: "marching", Quick: 8, Thorough: 320, Gen: genMarch, Run: runMarch})
+	if vh.Tier == "thorough" || vh.Replay != "" {
+		// 20+ blocks of 8 MB and 10^6 cube visits each under the race detector: minutes per case
+		vh.Enumerate(t, vh.Spec[BlocksCase]{Name: "marching-blocks", Run: runBlocks, Deadline: 15 * time.Minute},
+			[]BlocksCase{{Kind: "whole-block"}, {Kind: "long-capsule", L: 420}, {Kind: "long-capsule", L: 2050}})
+	}
 }
